@@ -113,6 +113,7 @@ class Program:
     idx: int
     backend: str
     files: Dict[str, str]
+    prelude: str = ""        # model C++ placed inside the program's namespace before the rendered code (C10)
 
 
 def write_batch(workdir: Path, programs: List[Program], backend: str) -> Path:
@@ -130,11 +131,11 @@ def write_batch(workdir: Path, programs: List[Program], backend: str) -> Path:
             (workdir / f"q{n}_query.h").write_text(f'#line 1 "q{n}/query.h"\n' + hdr + "\n")
             src = src.replace("#include <analysis/query.h>", f'#include "q{n}_query.h"', 1)
             parts.append("#undef analysis_query_H")
-            parts.append(f"namespace q{n} {{\n#line 1 \"q{n}/query.cxx\"\n{src}\n}}")
+            parts.append(f"namespace q{n} {{\n#line 1 \"q{n}/prelude\"\n{pr.prelude}\n#line 1 \"q{n}/query.cxx\"\n{src}\n}}")
         else:
             src = pr.files["Analyzer.cc"]
             _ensure_stubs(stub, src, backend)
-            parts.append(f"namespace q{n} {{\n#line 1 \"q{n}/Analyzer.cc\"\n{src}\n}}")
+            parts.append(f"namespace q{n} {{\n#line 1 \"q{n}/prelude\"\n{pr.prelude}\n#line 1 \"q{n}/Analyzer.cc\"\n{src}\n}}")
     cls = class_name(backend)
     main = ["#line 1 \"driver_main\"", "int main() {", "  std::ios::sync_with_stdio(false);",
             "  auto evs = vm::parse_events(std::cin);", "  auto plans = vm::parse_plan(std::cin);",
